@@ -6,6 +6,14 @@ ENGINES = [
 ]
 NOT_APPLICABLE = {}
 CHECKS = {
+    'C01': dict(engine='E1', level='exploration', design_ref='DESIGN.md 3/C01',
+                technique='bounded-exhaustive enumeration of structured PDU values (every ordered adjacency of sub-item kinds, every item list up to length 3/4, field boundary grids), round trip on the real codecs',
+                text='every PDU value of a declared finite grammar is encoded, decoded and re-encoded by the real classes and compared field by field; complete within the grids',
+                note='grids, not all values; values built through the public constructors'),
+    'C02': dict(engine='E1', level='exploration', design_ref='DESIGN.md 3/C02',
+                technique='bounded-exhaustive enumeration of PDU values, differential against an independent length-driven reference codec in both directions',
+                text='the whole C01 grammar plus reference-only encodings (sub-item permutations, unknown sub-items, padded titles) checked against a codec transcribed from PS3.8/PS3.7',
+                note='trusts vp/ref_pdu.py (self-tested: parse(build(t)) == t on every case)'),
     'C18': dict(engine='E1', level='exploration', design_ref='DESIGN.md 3/C18',
                 technique='exhaustive enumeration of all 65536 codes x 24 command classes + all add_status operation sequences to depth 2/3 against a reference dict model',
                 text='complete enumeration of the finite input space (1.57 M Status constructions) and of every add_status history up to the depth bound; nothing is sampled',
